@@ -6,6 +6,7 @@ import (
 	"fmt"
 	"os"
 	"regexp"
+	"strings"
 	"testing"
 
 	"github.com/junegunn/fzf/src/util"
@@ -42,13 +43,25 @@ func mkDelimSpec(arg string) delimSpec {
 		return delimSpec{"", Delimiter{}, oracle.Delim{Kind: oracle.DelimAwk}}
 	}
 	d := delimiterRegexp(arg)
-	if d.str != nil {
-		return delimSpec{arg, d, oracle.Delim{Kind: oracle.DelimStr, Str: *d.str}}
+	// The delimiter is documented as a regular expression ("\t" stands for a tab). What the model
+	// takes it for is decided here, independently of the parser: a text that regular-expression
+	// syntax reads literally (and a single character, and a text that is no valid expression) is a
+	// plain string, everything else an expression.
+	text := strings.ReplaceAll(arg, "\\t", "\t")
+	re, err := regexp.Compile(text)
+	if len([]rune(text)) == 1 || regexp.QuoteMeta(text) == text || err != nil {
+		if d.str == nil || *d.str != text {
+			panic(fmt.Sprintf("--delimiter %q is a plain string, the parser made a regular expression of it", arg))
+		}
+		return delimSpec{arg, d, oracle.Delim{Kind: oracle.DelimStr, Str: text}}
 	}
-	return delimSpec{arg, d, oracle.Delim{Kind: oracle.DelimRegex, Re: regexp.MustCompile(arg)}}
+	if d.regex == nil {
+		panic(fmt.Sprintf("--delimiter %q is a regular expression, the parser took it for the plain string %q", arg, *d.str))
+	}
+	return delimSpec{arg, d, oracle.Delim{Kind: oracle.DelimRegex, Re: re}}
 }
 
-var delimArgs = []string{"", "", ",", ":", "::", "\\t", "[,;]+", "\\s+", ",|;", "x*", ";"}
+var delimArgs = []string{"", "", ",", ":", "::", "\\t", "[,;]+", "\\s+", ",|;", "x*", ";", "\\s", "\\d", "a\\.b", "\\W", "x\\b", "(", "\\\\"}
 
 func vItem(s string, index int32) *Item {
 	it := &Item{text: util.ToChars([]byte(s))}
